@@ -177,6 +177,62 @@ theorem collect_leaves_registers (vm vm' : Vm.Vm) (h : Vm.gcRunPure vm = .ok vm'
       · exact Or.inr hg
     · cases h
 
+/-- the root slots of a safe point: the stack words `[0..sp]` -/
+def safeRoots (vm : Vm.Vm) : List Slot := (vm.stack.extract 0 (vm.sp + 1).toNat).toList
+
+/-- **at a safe point, under every schedule** (`gcMode` 0: the 80 % rule, 1: collect every time,
+2: never): the machine goes on with the same registers, stack and output, the same set of cells
+reachable from its stack and `gp`, and the same object in each of them -/
+theorem safe_point_any_mode_same_view (vm vm' : Vm.Vm) (inv : Inv vm.gc)
+    (wt : vm.gc.wellTyped (.collect (safeRoots vm) vm.gp) = true)
+    (h : Vm.gcRunPure vm = .ok vm') (x : Nat) :
+    vm'.stack = vm.stack ∧ vm'.sp = vm.sp ∧ vm'.gp = vm.gp ∧ vm'.out = vm.out ∧
+    (Live vm'.gc.mem (allRoots (safeRoots vm) vm.gp) x ↔ Live vm.gc.mem (allRoots (safeRoots vm) vm.gp) x) ∧
+    (Live vm.gc.mem (allRoots (safeRoots vm) vm.gp) x → objAt vm'.gc.mem x = objAt vm.gc.mem x) := by
+  have hd := C09.collect_defined inv wt
+  cases hc : vm.gc.collect (safeRoots vm) vm.gp with
+  | none => rw [hc] at hd; cases hd
+  | some gcl =>
+    unfold Vm.gcRunPure at h
+    split at h
+    · cases h; exact ⟨rfl, rfl, rfl, rfl, Iff.rfl, fun _ => rfl⟩
+    · simp only at h
+      split at h
+      · rename_i g hg
+        cases h
+        refine ⟨rfl, rfl, rfl, rfl, ?_⟩
+        split at hg
+        · have : g = gcl := by
+            have := hg.symm.trans hc; cases this; rfl
+          subst this
+          exact ⟨collect_preserves_liveness inv wt hc x, (C09.collect_exact inv wt hc).2.2.1 x⟩
+        · have v := run_any_schedule_same_view inv wt hg hc x
+          exact ⟨v.1, fun hl => (v.2.2 hl).1⟩
+      · cases h
+
+/-- a safe point never fails on a consistent heap, under any schedule -/
+theorem safe_point_never_fails (vm : Vm.Vm) (inv : Inv vm.gc)
+    (wt : vm.gc.wellTyped (.collect (safeRoots vm) vm.gp) = true) :
+    ∃ vm', Vm.gcRunPure vm = .ok vm' := by
+  have hd := C09.collect_defined inv wt
+  cases hc : vm.gc.collect (safeRoots vm) vm.gp with
+  | none => rw [hc] at hd; cases hd
+  | some gcl =>
+    unfold Vm.gcRunPure
+    split
+    · exact ⟨_, rfl⟩
+    · simp only
+      split
+      · exact ⟨_, rfl⟩
+      · rename_i hn
+        exfalso
+        split at hn
+        · exact absurd (hn.symm.trans hc) (by simp)
+        · unfold Gc.run at hn
+          split at hn
+          · exact absurd (hn.symm.trans hc) (by simp)
+          · cases hn
+
 /-- a concrete non-trivial instance of the hypotheses -/
 example : Inv ((Gc.new 6).exec C09.exPrefix) ∧ ((Gc.new 6).exec C09.exPrefix).wellTyped C09.exCollect = true :=
   ⟨C09.inv_history 6 (by decide) _, by decide +kernel⟩
@@ -193,5 +249,21 @@ example : ∃ g' g'', ((Gc.new 6).exec C09.exPrefix).collect [.addr 4, .stk 3, .
   | some g' =>
     obtain ⟨g'', h2, _, h3⟩ := collect_twice_defined inv wt h
     exact ⟨g', g'', rfl, h2, h3⟩
+
+/-- non-vacuity at VM level: a machine with the heap of the example above, two stack words holding
+references into it and `gp` = 1, in "collect every time" mode, meets the hypotheses of
+`safe_point_any_mode_same_view` and goes through the safe point -/
+def exVm : Vm.Vm :=
+  { Vm.Vm.new 6 4 1 with gc := (Gc.new 6).exec C09.exPrefix, stack := #[.addr 4, .stk 3, .unknown, .unknown], sp := 1, gp := 1 }
+
+example : Inv exVm.gc ∧ exVm.gc.wellTyped (.collect (safeRoots exVm) exVm.gp) = true ∧
+    ∃ vm', Vm.gcRunPure exVm = .ok vm' := by
+  have hg : exVm.gc = (Gc.new 6).exec C09.exPrefix := rfl
+  have hs : safeRoots exVm = [.addr 4, .stk 3] := by
+    simp [safeRoots, exVm, Vm.Vm.new]
+  have inv : Inv exVm.gc := by rw [hg]; exact C09.inv_history 6 (by decide) _
+  have wt : exVm.gc.wellTyped (.collect (safeRoots exVm) exVm.gp) = true := by
+    rw [hs, hg]; decide +kernel
+  exact ⟨inv, wt, safe_point_never_fails exVm inv wt⟩
 
 end Never.C04
